@@ -7,7 +7,6 @@ import (
 	"github.com/SAP/go-dblib/asetypes"
 	"github.com/SAP/go-dblib/vrt"
 	"verif/harness/valgrid"
-	"verif/hlib"
 	"verif/ref/tdsval"
 )
 
@@ -152,18 +151,24 @@ func histValues() []valgrid.Val {
 // histLeg: every ordered pair of the history values, sequentially and concurrently.
 func histLeg() {
 	vals := histValues()
-	// the single values must be sound grid points (otherwise a history failure would be misattributed)
+	// a value that does not survive on its own is reported as the grid point it is, and left out of
+	// the histories (a history failure would be misattributed)
+	var sound []valgrid.Val
 	for _, v := range vals {
 		b, err := enc(v)
-		if err != nil {
-			h.Fatal("history value %s does not encode: %v", v, err)
+		var g interface{}
+		if err == nil {
+			g, err = dec(v, b)
 		}
-		g, err := dec(v, b)
-		if ok, why := valgrid.SameValue(v, g, valgrid.Tolerance(v)); err != nil || !ok {
-			_ = hlib.Dump
-			h.Fatal("history value %s does not round-trip on its own: %v %s", v, err, why)
+		if ok, _ := valgrid.SameValue(v, g, valgrid.Tolerance(v)); err != nil || !ok {
+			if h.Mine(0) {
+				run(v)
+			}
+			continue
 		}
+		sound = append(sound, v)
 	}
+	vals = sound
 	idx := 0
 	for _, a := range vals {
 		for _, b := range vals {
